@@ -354,4 +354,200 @@ theorem getElem?_prefix {α : Type} {l p r : List α} (h : l = p ++ r) {i : Nat}
   have hi : i < p.length := (List.getElem?_eq_some_iff.mp hy).1
   rw [List.getElem?_append_left hi]; exact hy
 
+
+/-! ### freshness is only ever *set* by a mark -/
+
+/-- every cache entry that is fresh in `b` sits at the same key in `a` and was fresh there -/
+def FreshLe (a b : St) : Prop :=
+  ∀ k e', b.ce? k = some e' → e'.fresh = true → ∃ e, a.ce? k = some e ∧ e.fresh = true
+
+theorem FreshLe.refl (a : St) : FreshLe a a := fun _ e' h hf => ⟨e', h, hf⟩
+theorem FreshLe.trans {a b c : St} (h1 : FreshLe a b) (h2 : FreshLe b c) : FreshLe a c := by
+  intro k e' h hf
+  obtain ⟨e, he, hef⟩ := h2 k e' h hf
+  exact h1 k e he hef
+
+theorem ce?_of_subs {a b : St} (h : a.subs = b.subs) (k : Key) : a.ce? k = b.ce? k := by
+  unfold St.ce?; rw [h]
+
+theorem FreshLe.of_subs {a b : St} (h : b.subs = a.subs) : FreshLe a b := by
+  intro k e' he hf; exact ⟨e', by rw [← ce?_of_subs h k]; exact he, hf⟩
+
+theorem FreshLe.mapCE (st : St) (f : Key → CE → CE) (hf : ∀ k e, (f k e).fresh = true → e.fresh = true) :
+    FreshLe st (st.mapCE f) := by
+  intro k e' he hfr
+  rw [ceOpt_mapCE] at he
+  cases h : st.ce? k with
+  | none => rw [h] at he; cases he
+  | some e =>
+    rw [h] at he
+    simp only [Option.map_some, Option.some.injEq] at he
+    subst he
+    exact ⟨e, rfl, hf k e hfr⟩
+
+theorem ce?_mapDV (st : St) (f : Key → DV → DV) (k : Key) : (st.mapDV f).ce? k = st.ce? k := by
+  unfold St.ce? St.mapDV
+  simp only [getElem?_mapI]
+  cases st.subs[k.1]? <;> rfl
+
+theorem FreshLe.mapDV (st : St) (f : Key → DV → DV) : FreshLe st (st.mapDV f) := by
+  intro k e' he hf; exact ⟨e', by rw [← ce?_mapDV st f k]; exact he, hf⟩
+
+theorem CE.invN_fresh (e : CE) (n : Nat) (h : (e.invN n).fresh = true) : e.fresh = true := by
+  unfold CE.invN at h; split at h
+  · exact h
+  · cases h
+
+theorem FreshLe.notify (st : St) (ks : List Key) : FreshLe st (st.notify ks) :=
+  FreshLe.mapCE st _ (fun _ e h => CE.invN_fresh e _ h)
+
+theorem FreshLe.of_map {a b : St}
+    (h : ∀ key, ∃ g : CE → CE, (∀ c, (g c).fresh = true → c.fresh = true) ∧ b.ce? key = (a.ce? key).map g) :
+    FreshLe a b := by
+  intro k e' he hf
+  obtain ⟨g, hg, hk⟩ := h k
+  rw [hk] at he
+  cases ha : a.ce? k with
+  | none => rw [ha] at he; cases he
+  | some e =>
+    rw [ha] at he
+    simp only [Option.map_some, Option.some.injEq] at he
+    subst he
+    exact ⟨e, rfl, hg e hf⟩
+
+theorem FreshLe.register (st : St) (k : Key) (e : CE) : FreshLe st (st.register k e) := by
+  apply FreshLe.of_map
+  intro key
+  refine ⟨fun c => if e.preCE.contains key then { c with deps := c.deps ++ [k] } else c,
+          fun c h => by split at h <;> exact h, ?_⟩
+  unfold St.register
+  simp only
+  rw [ceOpt_mapCE, ce?_mapDV]
+  rfl
+
+theorem FreshLe.unregister (st : St) (k : Key) (e : CE) : FreshLe st (st.unregister k e) := by
+  apply FreshLe.of_map
+  intro key
+  refine ⟨fun c => if e.preCE.contains key then { c with deps := c.deps.erase k } else c,
+          fun c h => by split at h <;> exact h, ?_⟩
+  unfold St.unregister
+  simp only
+  rw [ceOpt_mapCE, ce?_mapDV]
+  rfl
+
+theorem FreshLe.foldl_unregister (l : List (Key × CE)) (st : St) :
+    FreshLe st (l.foldl (fun acc ke => acc.unregister ke.1 ke.2) st) := by
+  induction l generalizing st with
+  | nil => exact FreshLe.refl _
+  | cons a as ih => exact FreshLe.trans (FreshLe.unregister st a.1 a.2) (ih _)
+
+theorem FreshLe.noteQ (st : St) : FreshLe st st.noteQ := by
+  unfold St.noteQ
+  have h1 : FreshLe st ({ st with qVer := st.qVer + 1 } : St) := FreshLe.of_subs rfl
+  exact FreshLe.trans h1 (FreshLe.notify _ _)
+theorem FreshLe.noteU (st : St) : FreshLe st st.noteU := by
+  unfold St.noteU
+  have h1 : FreshLe st ({ st with uVer := st.uVer + 1 } : St) := FreshLe.of_subs rfl
+  exact FreshLe.trans h1 (FreshLe.notify _ _)
+theorem FreshLe.noteZ (st : St) : FreshLe st st.noteZ := by
+  unfold St.noteZ
+  have h1 : FreshLe st ({ st with zVer := st.zVer + 1 } : St) := FreshLe.of_subs rfl
+  exact FreshLe.trans h1 (FreshLe.notify _ _)
+theorem FreshLe.noteY (st : St) : FreshLe st st.noteY := by
+  unfold St.noteY
+  exact FreshLe.trans (FreshLe.trans (FreshLe.noteQ st) (FreshLe.noteU _)) (FreshLe.noteZ _)
+
+theorem FreshLe.invalSys (st : St) (g : Nat) : FreshLe st (st.invalSys g) := by
+  rcases invalSys_subs st g with h | h
+  · exact FreshLe.of_subs h
+  · refine FreshLe.trans ?_ (FreshLe.of_subs (a := (({ st with q := [], u := [], z := [] } : St).noteY)) h)
+    exact FreshLe.trans (FreshLe.of_subs (by rfl)) (FreshLe.noteY _)
+
+/-- subsystem-wise: the entries of `b` are obtained from a prefix of those of `a` without raising `fresh` -/
+theorem FreshLe.of_sub_prefix (a b : St)
+    (h : ∀ (s : Nat) (sb' : Sub), b.subs[s]? = some sb' → ∃ sb : Sub, a.subs[s]? = some sb ∧
+        ∀ (c : Nat) (e' : CE), sb'.ces[c]? = some e' → e'.fresh = true → ∃ e : CE, sb.ces[c]? = some e ∧ e.fresh = true) :
+    FreshLe a b := by
+  intro k e' he hf
+  obtain ⟨sb', hs', hc'⟩ := ce?_mem he
+  obtain ⟨sb, hs, hall⟩ := h k.1 sb' hs'
+  obtain ⟨e, hc, hfe⟩ := hall k.2 e' hc' hf
+  exact ⟨e, by unfold St.ce?; simp [hs, hc], hfe⟩
+
+theorem restore_fresh (sb : Sub) (g c : Nat) (e' : CE) (h : (sb.restore g).ces[c]? = some e') (hf : e'.fresh = true) :
+    ∃ e, sb.ces[c]? = some e ∧ e.fresh = true := by
+  have key : ∀ (l : List CE) (cur : Nat), (l.map (fun e => e.unfresh g cur))[c]? = some e' →
+      ∃ e, l[c]? = some e ∧ e.fresh = true := by
+    intro l cur hl
+    simp only [List.getElem?_map, Option.map_eq_some_iff] at hl
+    obtain ⟨e, he, rfl⟩ := hl
+    refine ⟨e, he, ?_⟩
+    unfold CE.unfresh at hf; split at hf
+    · cases hf
+    · exact hf
+  unfold Sub.restore at h
+  split at h
+  · exact key _ _ h
+  · split at h
+    · simp at h
+    · obtain ⟨e, he, hfe⟩ := key _ _ h
+      obtain ⟨r, hr⟩ := popBack_prefix CE.alloc g sb.ces
+      exact ⟨e, getElem?_prefix hr he, hfe⟩
+
+theorem FreshLe.invalAll (st : St) (g : Nat) : FreshLe st (st.invalAll g) := by
+  unfold St.invalAll
+  simp only
+  refine FreshLe.trans (FreshLe.trans (FreshLe.invalSys st g) ?_) (FreshLe.foldl_unregister _ _)
+  apply FreshLe.of_sub_prefix
+  intro s sb' hs'
+  simp only [List.getElem?_map, Option.map_eq_some_iff] at hs'
+  obtain ⟨sb, hs, rfl⟩ := hs'
+  exact ⟨sb, hs, fun c e' hc hf => restore_fresh sb _ c e' hc hf⟩
+
+theorem FreshLe.modSub (st : St) (s : Nat) (f : Sub → Sub)
+    (hf : ∀ (sb : Sub) (c : Nat) (e' : CE), (f sb).ces[c]? = some e' → e'.fresh = true →
+        ∃ e : CE, sb.ces[c]? = some e ∧ e.fresh = true) :
+    FreshLe st (st.modSub s f) := by
+  apply FreshLe.of_sub_prefix
+  intro s' sb' hs'
+  unfold St.modSub at hs'
+  simp only at hs'
+  rw [getElem?_modAt] at hs'
+  split at hs'
+  · simp only [Option.map_eq_some_iff] at hs'
+    obtain ⟨sb, hs, rfl⟩ := hs'
+    exact ⟨sb, hs, hf sb⟩
+  · exact ⟨sb', hs', fun c e' hc hfe => ⟨e', hc, hfe⟩⟩
+
+theorem FreshLe.modCE (st : St) (k : Key) (f : CE → CE) (hf : ∀ e, (f e).fresh = true → e.fresh = true) :
+    FreshLe st (st.modCE k f) := by
+  unfold St.modCE
+  apply FreshLe.modSub
+  intro sb c e' hc hfe
+  simp only at hc
+  rw [getElem?_modAt] at hc
+  split at hc
+  · simp only [Option.map_eq_some_iff] at hc
+    obtain ⟨e, he, rfl⟩ := hc
+    exact ⟨e, he, hf e hfe⟩
+  · exact ⟨e', hc, hfe⟩
+
+theorem FreshLe.modDV (st : St) (k : Key) (f : DV → DV) : FreshLe st (st.modDV k f) := by
+  unfold St.modDV
+  apply FreshLe.modSub
+  intro sb c e' hc hfe
+  exact ⟨e', hc, hfe⟩
+
+theorem FreshLe.pushCE (st : St) (s : Nat) (f : Sub → Sub) (e0 : Sub → CE) (h0 : ∀ sb, (e0 sb).fresh = false)
+    (hf : ∀ sb, (f sb).ces = sb.ces ++ [e0 sb]) : FreshLe st (st.modSub s f) := by
+  apply FreshLe.modSub
+  intro sb c e' hc hfe
+  rw [hf] at hc
+  by_cases hlt : c < sb.ces.length
+  · rw [List.getElem?_append_left hlt] at hc; exact ⟨e', hc, hfe⟩
+  · rw [List.getElem?_append_right (by omega)] at hc
+    cases hcc : c - sb.ces.length with
+    | zero => rw [hcc] at hc; simp at hc; subst hc; rw [h0] at hfe; cases hfe
+    | succ n => rw [hcc] at hc; simp at hc
+
 end C18
